@@ -175,7 +175,7 @@ namespace nmtools::utl
         }
         ~vector()
         {
-            if (buffer_ && (buffer_size_ > 0)) {
+            if (buffer_) {
                 allocator.deallocate(buffer_);
             }
         }
